@@ -485,7 +485,13 @@ def replay_answers(fn, answers, unit_points=(0.25, 0.75), vec_unit_points=(0.25,
             self.log = []
 
         def choice(self, kind, menu):
-            idx = answers[self.pos] if self.pos < len(answers) else 0
+            if self.pos >= len(answers):
+                # the recorded trace ends here: evaluate the state hook once more, then stop (answering
+                # defaults for ever could spin in a retry loop)
+                if at_choice is not None:
+                    at_choice(repo_frames(3), tuple(x[2] for x in self.log))
+                raise Abort()
+            idx = answers[self.pos]
             self.pos += 1
             if idx >= menu:
                 raise HarnessError('replay: answer %d outside menu %d' % (idx, menu))
@@ -505,6 +511,8 @@ def replay_answers(fn, answers, unit_points=(0.25, 0.75), vec_unit_points=(0.25,
         fn_out = fn(ScriptedRandomState(fx))
         replay_answers.last_values = fx.values
         return 'ok', fn_out, fx.log
+    except Abort:
+        return 'cut', None, fx.log
     except HarnessError:
         raise
     except Exception as e:  # noqa: BLE001
